@@ -17,10 +17,10 @@ ASSUMPTIONS = [
     "the original model is re-bound for every call (evaluate with a dictionary naming a sub-proposition id mutates its receiver: C09 finding D3)",
 ]
 BOUNDS = {
-    "quick": "|d|<=2 on ab/explicit; |d|<=1 on abc/explicit, at/explicit, wide/1 (16-bit leaves: region alphabet for assumed values, remaining leaves and completions); |d|<=1 over compound ids on diamond/explicit",
+    "quick": "|d|<=2 on ab/explicit; |d|<=1 on abc/explicit, at/explicit, depth-3 chains d3/ab, wide/1 (16-bit leaves: region alphabet for assumed values, remaining leaves and completions); |d|<=1 over compound ids on diamond/explicit",
     "thorough": "|d|<=2 on abc/explicit, at/explicit, ab/generated; |d|<=1 on abt, abct, diamonds (all ids), d3/abc",
 }
-QUICK = [("ab/explicit", 2, "all"), ("abc/explicit", 1, "all"), ("at/explicit", 1, "all"), ("diamond/explicit", 1, "compounds"), ("wide/1", 1, "all")]
+QUICK = [("ab/explicit", 2, "all"), ("abc/explicit", 1, "all"), ("at/explicit", 1, "all"), ("diamond/explicit", 1, "compounds"), ("wide/1", 1, "all"), ("d3/ab/explicit", 1, "all")]
 THOROUGH = [("ab/explicit", 2, "all"), ("abc/explicit", 2, "all"), ("at/explicit", 2, "all"), ("ab/generated", 2, "all"),
             ("abt/explicit", 1, "all"), ("abct/explicit", 1, "all"), ("diamond/explicit", 1, "all"), ("diamond/generated", 1, "compounds"),
             ("d3/abc/explicit", 1, "all"), ("fixed/ab", 1, "all")]
